@@ -1479,7 +1479,7 @@ def parse_tstates(writer, text, index, *cwd):
         simulator.run(start, stop, execint)
         if msg is None:
             return end, str(simulator.registers[T] - start_time)
-        return end, Template(msg).safe_substitute(tstates=simulator.registers[T])
+        return end, Template(msg).safe_substitute(tstates=simulator.registers[T] - start_time)
     if stop < start:
         stop = start + 1
     timings = writer.parser.get_instruction_timings(start, stop)
